@@ -2,6 +2,7 @@ package rules
 
 import (
 	"fmt"
+	"os"
 	"go/token"
 	"go/types"
 	"strings"
@@ -160,10 +161,10 @@ func ruleOptFlow(rule string) RuleFn {
 		// newResultObjectField: the options cell is only ever updated field-wise (Name)
 		if fn := c.Fn(rule, "dig.newResultObjectField"); fn != nil {
 			calls := methodCalls(fn, "dig.newResult")
-			good := len(calls) == 1
+			good := len(calls) >= 1
 			why := ""
-			if good {
-				arg := calls[0].Common().Args[1]
+			for _, call := range calls {
+				arg := call.Common().Args[1]
 				ld, ok := arg.(*ssa.UnOp)
 				var cell *ssa.Alloc
 				if ok && ld.Op == token.MUL {
@@ -184,7 +185,11 @@ func ruleOptFlow(rule string) RuleFn {
 							fname := an.FieldName(x.X.Type(), x.Field)
 							for _, rr := range an.Referrers(x) {
 								if st, ok := rr.(*ssa.Store); ok && st.Addr == ssa.Value(x) && fname != "Name" {
-									good, why = false, "field "+fname+" of the options is overwritten"
+									// a group-tagged field may be routed through the option form: Group := the field's own group tag
+									if fname == "Group" && strings.Contains(an.Norm(st.Val), ".Tag.Get(\"group\")") {
+										continue
+									}
+									good, why = false, "field "+fname+" of the options is overwritten by "+an.Norm(st.Val)
 								}
 							}
 						}
@@ -192,6 +197,48 @@ func ruleOptFlow(rule string) RuleFn {
 				}
 			}
 			c.Check(good, rule, "newResultObjectField passes on the options it received, overriding only Name", "opts.Name = tag; newResult(f.Type, opts)", "a result-object field does not inherit the constructor's options: "+why, nil, nil)
+		}
+		// every kind of field receives the options: a group-tagged field is a result like any other
+		if fn := c.Fn(rule, "dig.newResultObjectField"); fn != nil {
+			withOpts := func(k ssa.CallInstruction) bool {
+				for _, a := range k.Common().Args {
+					if s := an.Norm(a); s == "p:opts" || s == "*new:opts" || s == "new:opts" || strings.HasPrefix(s, "p:opts.As") || strings.HasPrefix(s, "new:opts.As") {
+						return true
+					}
+				}
+				return false
+			}
+			// with a non-empty As list ...
+			noAs := an.EdgesWhere(fn, func(ft an.Fact) bool {
+				f := strings.ReplaceAll(ft.S, "new:opts", "p:opts")
+				return f == "(len(p:opts.As) <= 0)" || f == "!(len(p:opts.As) > 0)" || f == "(len(p:opts.As) == 0)" || f == "!(len(p:opts.As) != 0)" || f == "(p:opts.As == nil)"
+			})
+			if os.Getenv("VERIF_DEBUG_FACTS") != "" {
+				an.EdgesWhere(fn, func(ft an.Fact) bool { fmt.Fprintln(os.Stderr, "fact:", ft.S); return false })
+			}
+			gates := an.NewGates().AddEdges(noAs...)
+			var builders []ssa.CallInstruction
+			an.Instrs(fn, func(in ssa.Instruction) {
+				if k, ok := in.(ssa.CallInstruction); ok && strings.HasPrefix(an.CalleeName(k), "dig.newResult") {
+					builders = append(builders, k)
+					if withOpts(k) {
+						gates.AddInstr(in)
+					}
+				}
+			})
+			for _, k := range builders {
+				if withOpts(k) {
+					c.OK(rule, "newResultObjectField hands the options to "+an.CalleeName(k), "callee(..., opts)", k)
+					continue
+				}
+				// ... no success return is reached from a builder that never saw the options, unless a builder that did comes in between
+				hit, _ := an.PathTo(fn, k, func(i ssa.Instruction) bool {
+					r, ok := i.(*ssa.Return)
+					return ok && !isErrorExit(r)
+				}, gates)
+				c.Check(hit == nil, rule, "newResultObjectField hands the options to "+an.CalleeName(k), "with a non-empty As list the result is rebuilt by a call that receives the options", "the result built by "+an.CalleeName(k)+" for a result-object field never sees the constructor's options: dig.As given next to a field of this kind is silently dropped, although the same registration written with the option form (dig.Group + dig.As) honours it", k, nil)
+			}
+			c.Floor(rule, "result-building calls in newResultObjectField", len(builders), 2)
 		}
 		// As is iterated where results are made
 		for _, nm := range []string{"dig.newResultSingle", "dig.newResult"} {
